@@ -89,6 +89,26 @@ NOT_APPLICABLE = {
 PENDING_REASON = "no check registered yet in this revision (contract work in progress; see DESIGN §8)"
 
 
+def _coverage_summary(pid):
+    """what the check of this property actually puts under contract, read from its committed evidence (written by the check itself)"""
+    try:
+        ev = json.load(open(f"evidence/{pid}.json"))["coverage"]
+    except Exception:
+        return ""
+    fns = []
+    for f in ev.get("functions_under_contract", []):
+        n = f["qualname"].split("::")[-1]
+        if n not in fns:
+            fns.append(n)
+    boxes = [b["name"] for b in ev.get("bounded", [])]
+    out = ""
+    if fns:
+        out += f" Functions under contract in the P tier ({len(fns)}): " + ", ".join(fns) + "."
+    if boxes:
+        out += f" Bounded stand-ins ({len(boxes)}; labelled bounded, never counted as proved): " + ", ".join(boxes) + "."
+    return out
+
+
 def main():
     ids = [json.loads(l)["id"] for l in open("properties.jsonl")]
     checks = []
@@ -104,7 +124,7 @@ def main():
                 "engine": "pyvc",
                 "level_claimed": {"category": cat, "text": text, "design_ref": ref},
                 "level_note": note,
-                "technique": tech,
+                "technique": tech + _coverage_summary(pid),
             })
     na = [{"property_id": p, "reason": NOT_APPLICABLE.get(p, PENDING_REASON)} for p in ids if p not in CLAIMS]
     man = {
